@@ -52,7 +52,12 @@
 
 #define DEFAULT_SORTER_TEMP_DIR		"/var/tmp"
 #define DEFAULT_SORTER_MEMORY		1073741824
+#ifdef MTBL_VERIF
+/* verification hook: lets multi-chunk external sorts happen with tiny inputs */
+#define MIN_SORTER_MEMORY		1
+#else
 #define MIN_SORTER_MEMORY		10485760
+#endif
 #define INITIAL_SORTER_VEC_SIZE		131072
 
 #define DEFAULT_FILESET_RELOAD_INTERVAL	60
